@@ -995,6 +995,11 @@ class _Tree(_ArithmeticMixin, _Base):
         return key in (self._findbucket(tree_key) or ())
 
     def has_key(self, key):
+        try:
+            key = self._to_key(key)
+        except TypeError:
+            # Can't convert the key, so can't possibly be in the tree
+            return False
         index = self._search(key)
         if index < 0:
             return False
@@ -1410,13 +1415,23 @@ class Tree(_MutableMappingMixin, _Tree):
     __slots__ = ()
 
     def get(self, key, default=None):
+        try:
+            key = self._to_key(key)
+        except TypeError:
+            # Can't convert, cannot possibly be present.
+            return default
         bucket = self._findbucket(key)
         if bucket:
             return bucket.get(key, default)
         return default
 
     def __getitem__(self, key):
-        bucket = self._findbucket(key)
+        try:
+            tree_key = self._to_key(key)
+        except TypeError:
+            # Can't convert, so cannot possibly be present.
+            raise KeyError(key)
+        bucket = self._findbucket(tree_key)
         if bucket:
             return bucket[key]
         raise KeyError(key)
@@ -1442,7 +1457,7 @@ class Tree(_MutableMappingMixin, _Tree):
             sorted((v, k) for (k, v) in self.iteritems() if v >= min))
 
     def insert(self, key, value):
-        return bool(self._set(key, value, True)[0])
+        return bool(self._set(self._to_key(key), self._to_value(value), True)[0])
 
 
 class TreeSet(_MutableSetMixin, _Tree):
